@@ -1,4 +1,5 @@
 import Pms.Props.C01
+import Pms.Props.C01Mod
 
 #print axioms Pms.Lammps.C01_roundtrip
 #print axioms Pms.Lammps.C01_frame_count
@@ -13,3 +14,5 @@ import Pms.Props.C01
 #print axioms Pms.Lammps.C01_scaled_cartesian
 #print axioms Pms.Lammps.C01_unwrapped_verbatim
 #print axioms Pms.Lammps.C01_hmatrix_lower
+#print axioms Pms.ModShape.C01_module_shape
+#print axioms Pms.ModShape.C01_body_shape
